@@ -4,7 +4,7 @@
     stack budget; both are also exercised in child processes, debug and release).  Statements only. *)
 From JP Require Import Base F64 Value Sig Slice Functions Interp Spec.SliceSpec Spec.Semantics Spec.SigSpec
      Lexer Parser JsonRead Proofs.InterpProof Proofs.TotalProof Proofs.ParseErrProof Proofs.CmpProof Proofs.NoTrapProof
-     Proofs.FuelProof Proofs.ParseFuelProof.
+     Proofs.FuelProof Proofs.ParseFuelProof Proofs.TermProof.
 
 (** Slices return for the whole 32-bit range of start/stop/step (no overflow, no out-of-bounds index, no loop). *)
 Theorem C05_slice_returns : forall (A : Type) (arr : list A) start stop step, i32_min <= step -> step <> 0 -> returns (slice arr start stop step).
@@ -96,3 +96,30 @@ Proof.
   destruct (parse s) as [t|e| | |]; [left; eauto| right; left; destruct (H3 e eq_refl) as [p ->]; eauto | contradiction | contradiction | right; right; reflexivity].
 Qed.
 Print Assumptions C05_compile_total.
+
+(** search terminates: for every expression whose expression references occur
+    only where the specification gives them a meaning — as the first argument of
+    map and the second of sort_by / max_by / min_by ([disc]) —, every JSON
+    document (no expression reference in the data) and any fuel not below the
+    height of the tree, evaluation on the default runtime (the registration list
+    read from the source on this run) is never out of fuel, through all 26
+    builtins; and the result is again a JSON value: no expression reference
+    escapes into data.  (Outside [disc] an expression reference can reach a data
+    position through a parameter declared [any] and be applied to itself: the
+    recorded known finding.) *)
+Theorem C05_search_terminates : forall a d n, disc a = true -> tree_ok a = true -> no_expref d = true -> (hgt a <= n)%nat ->
+  search_ast n default_runtime a d <> OOF /\ forall v, search_ast n default_runtime a d = Ok v -> no_expref v = true.
+Proof. exact search_terminates. Qed.
+Print Assumptions C05_search_terminates.
+
+(** every builtin, applied to JSON values, returns (or fails) without evaluating anything and yields a JSON value *)
+Theorem C05_builtins_terminate_on_json : forall ev b sg args off, nxs args -> Q (call_builtin ev b sg args off).
+Proof. exact call_builtin_Q_json. Qed.
+Print Assumptions C05_builtins_terminate_on_json.
+
+Example C05_disciplined_example :
+  match parse [115;111;114;116;95;98;121;40;97;44;32;38;98;41;91;48;93;32;124;32;109;97;112;40;38;99;91;42;93;44;32;64;41] with   (* sort_by(a, &b)[0] | map(&c[*], @) *)
+  | Ok a => disc a && tree_ok a
+  | _ => false
+  end = true.
+Proof. vm_compute. reflexivity. Qed.
